@@ -20,13 +20,25 @@ use super::IndexEntry;
 pub const UPDATE_ENTRY_SIZE: usize = 24;
 
 /// Size of a single update page in bytes.
+#[cfg(not(kani))]
 pub const UPDATE_PAGE_SIZE: usize = 512;
+
+/// Verification scale model (compiled only by the Kani model checker): 2 entries per page plus
+/// 8 slack bytes, mirroring 512 = 21 * 24 + 8.
+#[cfg(kani)]
+pub const UPDATE_PAGE_SIZE: usize = 56;
 
 /// Maximum entries per update page (512 / 24 = 21).
 pub const ENTRIES_PER_PAGE: usize = UPDATE_PAGE_SIZE / UPDATE_ENTRY_SIZE;
 
 /// Minimum update section size in bytes (60 pages).
+#[cfg(not(kani))]
 pub const MIN_UPDATE_SECTION_SIZE: usize = 0x7800;
+
+/// Verification scale model (compiled only by the Kani model checker): 2 pages, so that a
+/// full update section is 4 appends away.
+#[cfg(kani)]
+pub const MIN_UPDATE_SECTION_SIZE: usize = 2 * UPDATE_PAGE_SIZE;
 
 /// Alignment boundary for the update section start (64 KB).
 pub const UPDATE_SECTION_ALIGNMENT: usize = 0x1_0000;
